@@ -48,14 +48,14 @@ TNext ==
                 ELSE pkts
      \* escrowed - paid out: what went in through accepted transfers minus every observed decrease of the holdings,
      \* attributed to the channel of the packet being handled
-     /\ credit' = IF reset THEN OutOf(e.obs)
+     /\ credit' = IF reset THEN (IF e.obs.legacy THEN [c \in Chan |-> [d \in Denom |-> IF c = "ch1" THEN H[d] ELSE 0]] ELSE OutOf(e.obs))
                   ELSE IF e.ok /\ e.act = "transfer" /\ e.args.ch \in Chan /\ e.args.denom \in Denom
                        THEN [credit EXCEPT ![e.args.ch][e.args.denom] = @ + e.args.amt]
                   ELSE IF e.act \in {"recv", "ack", "timeout"} /\ e.args.ch \in Chan
                        THEN [credit EXCEPT ![e.args.ch] = [d \in Denom |-> @[d] - (IF held[d] > H[d] THEN held[d] - H[d] ELSE 0)]]
                   ELSE credit
      \* sent - failed - redeemed
-     /\ ident' = IF reset THEN OutOf(e.obs)
+     /\ ident' = IF reset \/ (legacy /\ e.ok /\ e.act = "migrate") THEN OutOf(e.obs)
                  ELSE IF e.ok /\ e.act = "transfer" /\ e.args.ch \in Chan /\ e.args.denom \in Denom
                       THEN [ident EXCEPT ![e.args.ch][e.args.denom] = @ + e.args.amt]
                  ELSE IF e.ok /\ Fails(e) /\ e.args.ch \in Chan /\ e.args.denom \in Denom
@@ -84,6 +84,7 @@ T_C12_FailedCallNoChange == [][C12_FailedCallNoChange]_tv
 T_C12_FailureRefunds == [][C12_FailureRefunds]_tv
 T_C12_SuccessAckKeeps == [][C12_SuccessAckKeeps]_tv
 T_C12_OthersKeepBooks == [][C12_OthersKeepBooks]_tv
+T_C12_LegacyMigrateRebases == [][C12_LegacyMigrateRebases]_tv
 T_C18_AllowMonotone == [][C18_AllowMonotone]_tv
 T_C18_GovOnly == [][C18_GovOnly]_tv
 T_C18_GovExact == [][C18_GovExact]_tv
